@@ -19,7 +19,7 @@ import vlib
 from vlib import cN, cbool, clist, cpair
 
 from props import _c25_common as cm
-from props.C25 import Oracle, shrink_candidates
+from props.C25 import Oracle, narrow, shrink_candidates
 from props._c25_history import (ask, clear_caches, plan_from_json, plan_to_json, rebuild_plan,  # noqa: F401
                                 run_history, shrink_history)
 
@@ -183,7 +183,7 @@ class PHist:
             for g in gens:
                 if id(g) in self.name_of_obj:
                     continue
-                base = str(g).replace(cl.modname + ".", "M.")
+                base = str(g).replace(cl.modname + "_dep.", "D.").replace(cl.modname + ".", "M.")
                 k = seen.get(base, 0)
                 seen[base] = k + 1
                 name = base if k == 0 else f"{base}#{k}"
@@ -461,6 +461,13 @@ def work(arg):
             if entry is not None:
                 requests += [cm.t_from_json(j) for j in entry.get("requests", [])]
             keys = [t for t, _, _, _ in pv.table]
+            for k in keys:
+                # a generated type with a union strictly inside vs requests that hold the narrowed type in a union:
+                # only the lenient reading matches (tuple[A | B, A] for a parameter tuple[A, A] | None)
+                nt = narrow(rng, k) if k[0] != "union" else None
+                if nt is not None:
+                    requests += [nt, cm.t_union([nt, cm.NONE_T]), cm.t_union([cm.t_inst("int"), nt])]
+                    count("request:narrowed-generated-type", 3)
             for _ in range(n_req):
                 c = rng.random()
                 if c < 0.4 and keys:
